@@ -1,6 +1,7 @@
 import CookModel.Analysis.MetaValidator
 import CookModel.Lemmas.CollectorAgree
 import CookModel.Lemmas.CollectorFrame
+import CookModel.Lemmas.MetaFront
 /-
   Lemmas about the `>>` arm under a `metadata_validator` (Analysis/MetaValidator.lean), prefix `mvl_`:
   the default verdict gives back `metadataA`; what the arm does to the metadata part of the collector
@@ -170,6 +171,73 @@ theorem mvl_analysis_agree (env : Env) (val : Option (Nat → Y → Y → FM.Ver
     simp only [parseEventsV] at h1 h2
     exact mvl_events_agree env input f _ _ (metadata_events_agree env.cs env.ext input h)
       (pullMeta_keys_shape env.cs env.ext input h) r1 r2 h1 h2
+
+/-- a validator that always answers `Ok` and touches no option is no validator -/
+theorem mvl_loop_default (env : Env) (input : Str) (f : Nat → Y → Y → FM.Verdict)
+    (hf : ∀ n a b, (f n a b).res = .ok ∧ (f n a b).incl = true ∧ (f n a b).runStd = true) :
+    ∀ (l : List (Ev α)) (n : Nat) (s : Col α), loopV env input f l n s = parseEventsLoop env input l s := by
+  intro l
+  induction l with
+  | nil => intro n s; rfl
+  | cons ev rest ih =>
+    intro n s
+    cases ev with
+    | error d => rfl
+    | metadata k v =>
+      simp only [loopV, parseEventsLoop]
+      rw [mvl_default env _ k v s (hf _ _ _).1 (hf _ _ _).2.1 (hf _ _ _).2.2]
+      exact ih _ _
+    | _ => simp only [loopV, parseEventsLoop]; exact ih _ _
+
+/-! ### with front matter the `>>` arm never calls the validator -/
+
+theorem mvl_loop_cfg (env : Env) (input : Str) (f : Nat → Y → Y → FM.Verdict) :
+    ∀ (l : List (Ev α)) (n : Nat) (s : Col α),
+    (∀ k v, Ev.metadata k v ∈ l → isCfg env k = true) →
+    loopV env input f l n s = parseEventsLoop env input l s := by
+  intro l
+  induction l with
+  | nil => intro n s _; rfl
+  | cons ev rest ih =>
+    intro n s h
+    have h' : ∀ k v, Ev.metadata k v ∈ rest → isCfg env k = true :=
+      fun k v hm => h k v (List.mem_cons_of_mem _ hm)
+    cases ev with
+    | error d => rfl
+    | metadata k v =>
+      have hc := h k v (List.mem_cons_self ..)
+      simp only [loopV, parseEventsLoop, hc, if_true, mvl_cfg env _ k v hc]
+      exact ih _ _ h'
+    | _ => simp only [loopV, parseEventsLoop]; exact ih _ _ h'
+
+/-- with front matter, a validator changes nothing in what the event fold does: it is consulted by
+    `process_frontmatter` only (`FM.processFrontmatter`) -/
+theorem mvl_front_same (env : Env) (val : Option (Nat → Y → Y → FM.Verdict)) (input : Str) (fm : FrontMatter)
+    (h : parseFrontmatter env.cs input = some fm) :
+    parseRecipeV (α := α) env val input = parseRecipe env input ∧
+    parseMetadataV (α := α) env val input = parseMetadata env input := by
+  cases val with
+  | none => exact ⟨rfl, rfl⟩
+  | some f =>
+    constructor
+    · unfold parseRecipeV parseRecipe parseEventsV parseEvents
+      obtain ⟨L, e, hL⟩ := mfront_pullEvents (α := α) env.cs env.ext input fm h
+      have hcfg : ∀ k v, Ev.metadata k v ∈ (pullEvents (α := α) env.cs env.ext input).1.toList → isCfg env k = true := by
+        intro k v hm
+        have hm2 : Ev.metadata k v ∈ metaOf (pullEvents (α := α) env.cs env.ext input).1 :=
+          List.mem_filter.2 ⟨hm, rfl⟩
+        rw [e] at hm2
+        rcases List.mem_cons.1 hm2 with hm3 | hm3
+        · cases hm3
+        · obtain ⟨k', v', e', hk, hx⟩ := hL _ hm3
+          cases e'
+          obtain ⟨h1, h2, _⟩ := mfront_cfg_trimmed env.cs k hk
+          simp [isCfg, hx, h1, h2]
+      simp only [mvl_loop_cfg env input f _ 0 {} hcfg]
+      rfl
+    · unfold parseMetadataV parseMetadata parseEventsV parseEvents
+      simp only [mfront_pullMetaEvents (α := α) env.cs env.ext input fm h]
+      rfl
 
 end MV
 end Cook
